@@ -89,7 +89,33 @@ func genFloat(r *common.Rng) interface{} {
 
 var strPool = []string{"x", "y", "5", "", "ab", "abc", "done", "pending"}
 
+// genCore: a small value domain shared by bodies and compare values so that matches are common.
+func genCore(r *common.Rng) interface{} {
+	k := r.Intn(4)
+	switch r.Intn(12) {
+	case 0, 1, 2, 3:
+		return int64(k)
+	case 4:
+		return int8(k)
+	case 5:
+		return uint8(k)
+	case 6:
+		return uint64(k)
+	case 7:
+		return float64(k)
+	case 8:
+		return float64(k) + 0.5
+	case 9, 10:
+		return []string{"x", "y"}[r.Intn(2)]
+	default:
+		return r.Bool()
+	}
+}
+
 func genScalar(r *common.Rng) interface{} {
+	if r.Chance(60) {
+		return genCore(r)
+	}
 	switch r.Intn(20) {
 	case 0, 1, 2, 3, 4:
 		return genInt(r)
@@ -214,6 +240,32 @@ var pathPool = []string{"a", "a", "a", "b", "b", "c", "d", "n.x", "n.x", "n.y", 
 
 func genCmp(r *common.Rng, f *hydrapb.TreasureFilter) {
 	small := int64(r.Intn(8)) - 1
+	if r.Chance(60) {
+		k := r.Intn(4)
+		switch r.Intn(10) {
+		case 0, 1, 2:
+			f.CompareValue = &hydrapb.TreasureFilter_Int64Val{Int64Val: int64(k)}
+		case 3:
+			f.CompareValue = &hydrapb.TreasureFilter_Int32Val{Int32Val: int32(k)}
+		case 4:
+			f.CompareValue = &hydrapb.TreasureFilter_Uint8Val{Uint8Val: uint32(k)}
+		case 5:
+			f.CompareValue = &hydrapb.TreasureFilter_Uint64Val{Uint64Val: uint64(k)}
+		case 6:
+			f.CompareValue = &hydrapb.TreasureFilter_Float64Val{Float64Val: float64(k)}
+		case 7:
+			f.CompareValue = &hydrapb.TreasureFilter_Float64Val{Float64Val: float64(k) + 0.5}
+		case 8:
+			f.CompareValue = &hydrapb.TreasureFilter_StringVal{StringVal: []string{"x", "y"}[r.Intn(2)]}
+		default:
+			b := hydrapb.Boolean_TRUE
+			if r.Bool() {
+				b = hydrapb.Boolean_FALSE
+			}
+			f.CompareValue = &hydrapb.TreasureFilter_BoolVal{BoolVal: b}
+		}
+		return
+	}
 	switch r.Intn(22) {
 	case 0:
 		f.CompareValue = &hydrapb.TreasureFilter_Int8Val{Int8Val: int32(small)}
@@ -263,7 +315,7 @@ func genLeg(r *common.Rng, plainBias bool) *hydrapb.TreasureFilter {
 	f := &hydrapb.TreasureFilter{}
 	p := pathPool[r.Intn(len(pathPool))]
 	if plainBias && r.Chance(70) {
-		p = []string{"a", "b", "c", "n.x"}[r.Intn(4)]
+		p = []string{"a", "a", "a", "b", "b", "n.x"}[r.Intn(6)]
 	}
 	f.BytesFieldPath = &p
 	switch k := r.Intn(100); {
@@ -274,19 +326,19 @@ func genLeg(r *common.Rng, plainBias bool) *hydrapb.TreasureFilter {
 		f.Operator = hydrapb.Relational_STRING_IN
 		n := r.Intn(4)
 		for i := 0; i < n; i++ {
-			f.StringInVals = append(f.StringInVals, strPool[r.Intn(len(strPool))])
+			f.StringInVals = append(f.StringInVals, []string{"x", "y", "x", "y", "5", "", "done"}[r.Intn(7)])
 		}
 	case k < 68:
 		f.Operator = hydrapb.Relational_INT32_IN
 		n := r.Intn(4)
 		for i := 0; i < n; i++ {
-			f.Int32InVals = append(f.Int32InVals, int32(r.Intn(8))-1)
+			f.Int32InVals = append(f.Int32InVals, int32(r.Intn(5))-1)
 		}
 	case k < 74:
 		f.Operator = hydrapb.Relational_INT64_IN
 		n := r.Intn(4)
 		for i := 0; i < n; i++ {
-			vs := []int64{0, 1, 2, 5, 4, math.MinInt64, 1 << 53, -1}
+			vs := []int64{0, 1, 2, 3, 0, 1, 2, 5, math.MinInt64, 1 << 53, -1}
 			f.Int64InVals = append(f.Int64InVals, vs[r.Intn(len(vs))])
 		}
 	case k < 94:
@@ -310,7 +362,7 @@ func genGroup(r *common.Rng, depth int, forceAnd bool) *hydrapb.FilterGroup {
 	if !forceAnd && r.Chance(30) {
 		g.Logic = hydrapb.FilterLogic_OR
 	}
-	nl := r.Intn(4)
+	nl := []int{1, 1, 1, 2, 2, 3, 0}[r.Intn(7)]
 	if depth >= 3 && nl == 0 {
 		nl = 1
 	}
@@ -354,13 +406,13 @@ func genReq(r *common.Rng, keys []string, ties bool) reqSpec {
 	q.Idx = []hydrapb.IndexType_Type{hydrapb.IndexType_KEY, hydrapb.IndexType_KEY, hydrapb.IndexType_CREATION_TIME,
 		hydrapb.IndexType_CREATION_TIME, hydrapb.IndexType_UPDATE_TIME, hydrapb.IndexType_EXPIRATION_TIME}[r.Intn(6)]
 	q.Desc = r.Bool()
-	if r.Chance(35) {
-		q.From = []int32{1, 2, 3, 5, 20}[r.Intn(5)]
+	if r.Chance(22) {
+		q.From = []int32{1, 1, 2, 3, 5, 20}[r.Intn(6)]
 	}
-	if r.Chance(35) {
-		q.Limit = []int32{1, 2, 3, 5, 8}[r.Intn(5)]
+	if r.Chance(25) {
+		q.Limit = []int32{1, 2, 3, 5, 8, 8}[r.Intn(6)]
 	}
-	if r.Chance(35) {
+	if r.Chance(25) {
 		a := genTime(r, ties)
 		b := genTime(r, ties)
 		switch r.Intn(4) {
@@ -378,7 +430,7 @@ func genReq(r *common.Rng, keys []string, ties bool) reqSpec {
 	if r.Chance(30) {
 		q.Max = []int32{1, 2, 3, 5}[r.Intn(4)]
 	}
-	if r.Chance(12) && len(keys) > 0 {
+	if r.Chance(8) && len(keys) > 0 {
 		n := 1 + r.Intn(len(keys))
 		for i := 0; i < n; i++ {
 			q.Inc = append(q.Inc, keys[r.Intn(len(keys))])
@@ -393,7 +445,17 @@ func genReq(r *common.Rng, keys []string, ties bool) reqSpec {
 			q.Exc = append(q.Exc, keys[r.Intn(len(keys))])
 		}
 	}
-	q.F = genGroup(r, 1, r.Chance(75))
+	if r.Chance(35) {
+		q.F = &hydrapb.FilterGroup{Filters: []*hydrapb.TreasureFilter{genLeg(r, true)}}
+		if r.Chance(40) {
+			q.F.Filters = append(q.F.Filters, genLeg(r, true))
+		}
+		if r.Chance(25) {
+			q.F.Logic = hydrapb.FilterLogic_OR
+		}
+	} else {
+		q.F = genGroup(r, 1, r.Chance(75))
+	}
 	return q
 }
 
